@@ -257,6 +257,7 @@ def make_interface(prop):
                 "comparisons": st.get("comparisons", 0),
                 "comparisons_nontrivial": st.get("comparisons_nontrivial", 0),
                 "comparisons_vacuous": st.get("vacuous", 0),
+                "direct_comparisons_O6": st.get("direct_comparisons", 0),
                 "c13_breaches_observed_not_judged_here": total["c13_seen"],
             })
         else:
@@ -272,7 +273,7 @@ def make_interface(prop):
     def summary_lines(total):
         st = total["stats"]
         out = [f"steps={total['steps']} queries={st.get('queries', 0)} creates={st.get('creates', 0)} comparisons={st.get('comparisons', 0)} "
-               f"nontrivial_cmp={st.get('comparisons_nontrivial', 0)} vacuous={st.get('vacuous', 0)} both_raise={st.get('both_raise', 0)} "
+               f"nontrivial_cmp={st.get('comparisons_nontrivial', 0)} vacuous={st.get('vacuous', 0)} direct={st.get('direct_comparisons', 0)} both_raise={st.get('both_raise', 0)} "
                f"fresh_raises_hist_ok={st.get('fresh_raises_hist_ok', 0)} fingerprints={len(total['fp'])} nontrivial_fp={len(total['nt'])} "
                f"c13cases={len(total['c13'])}/{len(total['c13nt'])}",
                "faults: " + " ".join(f"{k}={st.get(f'fault_{k}_fired', 0)}/{st.get(f'fault_{k}_armed', 0)}" for k in G.FAULT_KINDS),
